@@ -21,8 +21,9 @@ Open Scope N_scope.
 (* ------------------------------------------------------------------ documents *)
 Record aref := mk_aref { a_stage : N; a_prod : string; a_file : string; a_meth : string }.
 
-(* a reference inside the DoWhile document: to a binding name  b[/file]:meth  or to a looped component
-   [stageJ.]name[/file]:meth  (stage relative to the document; None = the stage of the referencing component) *)
+(* a reference inside the DoWhile document: to a binding name  b[/file]:meth  or to a component
+   [stageJ.]name[/file]:meth  (stage relative to the document; None = the stage of the referencing component): the
+   looped component with that stage AND name, or else a component outside the loop (in a stage of the loop) *)
 Inductive ref :=
   | RBind (b file meth : string)
   | RComp (st : option N) (name file meth : string).
